@@ -18,6 +18,14 @@ struct Obj {
 
 static std::map<int, Obj> objs;
 
+// a reference to an object that does not exist (e.g. in a shrunk replay) is a protocol error, not an implementation outcome
+struct missing_object {};
+static Obj& obj_at(const std::string& id) {
+  auto it = objs.find(atoi(id.c_str()));
+  if (it == objs.end()) throw missing_object();
+  return it->second;
+}
+
 static std::string observe(const cpc_sketch& s) {
   std::ostringstream os;
   os << "S " << (int)s.get_lg_k() << " " << s.get_num_coupons() << " " << (s.validate() ? 1 : 0) << " " << (s.is_empty() ? 1 : 0)
@@ -45,12 +53,16 @@ static void do_update(S& s, const std::string& ty, const std::string& lit) {
 }
 
 static cpc_sketch& sk_at(const std::string& id) {
-  Obj& o = objs.at(atoi(id.c_str()));
-  if (!o.sk) throw std::runtime_error("not a sketch");
+  Obj& o = obj_at(id);
+  if (!o.sk) throw missing_object();
   return *o.sk;
 }
 
+static std::string step_inner(const std::vector<std::string>& w);
 static std::string step(const std::vector<std::string>& w) {
+  try { return step_inner(w); } catch (const missing_object&) { return "bad-op"; }
+}
+static std::string step_inner(const std::vector<std::string>& w) {
   const std::string& op = w[0];
   if (op == "new") {
     int id = atoi(w[1].c_str());
@@ -72,7 +84,7 @@ static std::string step(const std::vector<std::string>& w) {
     return observe(s);
   }
   if (op == "copy") {
-    Obj& o = objs.at(atoi(w[1].c_str()));
+    Obj& o = obj_at(w[1]);
     Obj n; n.seed = o.seed;
     if (o.sk) n.sk.reset(new cpc_sketch(*o.sk)); else n.un.reset(new cpc_union(*o.un));
     int nid = atoi(w[2].c_str());
@@ -89,8 +101,8 @@ static std::string step(const std::vector<std::string>& w) {
     return "B " + vh::hex_of_bytes(b.data(), b.size());
   }
   if (op == "rt") {   // rt <sketch> <new id>: serialize, deserialize, serialize again
-    Obj& o = objs.at(atoi(w[1].c_str()));
-    if (!o.sk) throw std::runtime_error("not a sketch");
+    Obj& o = obj_at(w[1]);
+    if (!o.sk) throw missing_object();
     auto b = o.sk->serialize();
     Obj n; n.seed = o.seed;
     {
@@ -117,16 +129,16 @@ static std::string step(const std::vector<std::string>& w) {
     return observe(objs[id].un->get_result());
   }
   if (op == "uupd") {   // uupd <union> <sketch> [rvalue]
-    Obj& u = objs.at(atoi(w[1].c_str()));
-    if (!u.un) throw std::runtime_error("not a union");
+    Obj& u = obj_at(w[1]);
+    if (!u.un) throw missing_object();
     cpc_sketch& s = sk_at(w[2]);
     if (w.size() > 3 && w[3] == "rvalue") { cpc_sketch tmp(s); u.un->update(std::move(tmp)); }
     else u.un->update(s);
     return observe(u.un->get_result());
   }
   if (op == "ures") {
-    Obj& u = objs.at(atoi(w[1].c_str()));
-    if (!u.un) throw std::runtime_error("not a union");
+    Obj& u = obj_at(w[1]);
+    if (!u.un) throw missing_object();
     Obj n; n.seed = u.seed; n.sk.reset(new cpc_sketch(u.un->get_result()));
     int nid = atoi(w[2].c_str());
     objs[nid] = std::move(n);
